@@ -133,6 +133,8 @@ pub struct Scheduler {
     invariant: Option<Invariant>,
     inv_hits: Mutex<Vec<String>>,
     event_budget: u64,
+    fault: Option<SchedFault>,
+    fault_seen: std::sync::atomic::AtomicU64,
 }
 
 /// Calls that cannot conflict by construction are not scheduling points.
@@ -159,8 +161,16 @@ impl Controller for Scheduler {
             shim::retire_generation();
             self.cv.notify_all();
         }
-        if g.free_run || !is_scheduling_point(ev) {
-            return Action::Proceed;
+        // the configured fault, if this is the call it names
+        let mut answer = Action::Proceed;
+        if let Some(f) = &self.fault {
+            if f.tid == tid && f.kind == ev.kind && self.fault_seen.fetch_add(1, std::sync::atomic::Ordering::SeqCst) == f.nth {
+                answer = f.action;
+            }
+        }
+        let point = is_scheduling_point(ev) || (self.fault.is_some() && ev.kind == Kind::Close);
+        if g.free_run || !point {
+            return answer;
         }
         g.pending[tid] = Some(ev.clone());
         g.state[tid] = TState::Parked;
@@ -177,7 +187,7 @@ impl Controller for Scheduler {
         }
         g.state[tid] = TState::Running;
         g.pending[tid] = None;
-        Action::Proceed
+        answer
     }
 
     fn after(&self, ev: &Ev) {
@@ -210,11 +220,33 @@ pub struct RunOpts {
     pub event_budget: u64,
     /// sleep sets: threads asleep at the first free choice point (after the prefix)
     pub sleep: Option<BTreeSet<usize>>,
+    /// one environment fault inside the explored execution
+    pub fault: Option<SchedFault>,
+}
+
+/// The `nth` call of kind `kind` issued by participant `tid` is answered with `action`.  With a fault configured,
+/// `close` is a scheduling point too (what happens between a failed close and whatever the caller does next matters).
+#[derive(Clone, Copy, Debug)]
+pub struct SchedFault {
+    pub tid: usize,
+    pub kind: Kind,
+    pub nth: u64,
+    pub action: Action,
+}
+
+impl SchedFault {
+    /// Programs carry their fault in their name: "...closefault<n>..." = the n-th close of participant 0 releases
+    /// the descriptor and then reports EINTR (what Linux does when a signal interrupts a close).
+    pub fn from_program_name(name: &str) -> Option<SchedFault> {
+        let i = name.find("closefault")?;
+        let digits: String = name[i + "closefault".len()..].chars().take_while(|c| c.is_ascii_digit()).collect();
+        Some(SchedFault { tid: 0, kind: Kind::Close, nth: digits.parse().ok()?, action: Action::FailAfter(libc::EINTR) })
+    }
 }
 
 impl Default for RunOpts {
     fn default() -> Self {
-        RunOpts { invariant: None, event_budget: 4000, sleep: None }
+        RunOpts { invariant: None, event_budget: 4000, sleep: None, fault: None }
     }
 }
 
@@ -414,6 +446,8 @@ pub fn run_schedule(prog: &Program, prefix: &[usize], opts: RunOpts) -> Executio
         invariant: opts.invariant,
         inv_hits: Mutex::new(vec![]),
         event_budget: opts.event_budget,
+        fault: opts.fault,
+        fault_seen: std::sync::atomic::AtomicU64::new(0),
     });
     shim::set_controller(Some(sched.clone() as Arc<dyn Controller>));
     let history: Arc<Mutex<Vec<OpRecord>>> = Arc::new(Mutex::new(Vec::new()));
